@@ -109,7 +109,14 @@ func (vc *VC) fnValue(fn *ssa.Function) Term {
 	for _, c := range []byte(FuncKey(fn)) {
 		h = (h ^ uint32(c)) * 16777619
 	}
-	return Term{fmt.Sprint(int64(h)%1000000007 + 1), SFn}
+	t := Term{fmt.Sprint(int64(h)%1000000007 + 1), SFn}
+	if vc.closures == nil {
+		vc.closures = map[string]*closureInfo{}
+	}
+	if _, ok := vc.closures[t.S]; !ok && len(fn.FreeVars) == 0 {
+		vc.closures[t.S] = &closureInfo{fn: fn}
+	}
+	return t
 }
 
 func (f *frame) constTerm(c *ssa.Const) Term {
@@ -322,8 +329,16 @@ func (f *frame) loopMods(li *loopInfo) (keys map[string]bool, all bool, allocs b
 	vc := f.vc
 	keys = map[string]bool{}
 	addType := func(t types.Type) { vc.tt.kinds(t, keys) }
-	for b := range li.blocks {
-		for _, in := range b.Instrs {
+	var scan func(in ssa.Instruction, depth int)
+	scanFn := func(fn *ssa.Function, depth int) {
+		for _, b := range fn.Blocks {
+			for _, in := range b.Instrs {
+				scan(in, depth)
+			}
+		}
+	}
+	scan = func(in ssa.Instruction, depth int) {
+		{
 			switch x := in.(type) {
 			case *ssa.Store:
 				addType(x.Val.Type())
@@ -373,7 +388,7 @@ func (f *frame) loopMods(li *loopInfo) (keys map[string]bool, all bool, allocs b
 							keys[k] = true
 						}
 					}
-					continue
+					return
 				}
 				sp, callee := f.calleeSpec(cm)
 				if ds := f.dynSpec(cm); ds != nil {
@@ -381,11 +396,51 @@ func (f *frame) loopMods(li *loopInfo) (keys map[string]bool, all bool, allocs b
 				}
 				if sp != nil && sp.Inline && callee != nil {
 					all = true // conservative
-					continue
+					return
+				}
+				if sp == nil && callee != nil && isLeaf(callee) && depth < 4 {
+					scanFn(callee, depth+1) // inlined at the call: what its body writes
+					return
+				}
+				if sp != nil && cm.IsInvoke() && len(sp.Dispatch) > 0 && depth < 4 {
+					// resolved by case analysis: the union over the implementations
+					env := &Env{vc: vc, pkg: vc.pkgOf(nil, sp)}
+					for _, tn := range sp.Dispatch {
+						T, err := env.lookupType(tn)
+						if err != nil {
+							all = true
+							return
+						}
+						fn := vc.P.SSA.LookupMethod(T, cm.Method.Pkg(), cm.Method.Name())
+						if fn == nil {
+							all = true
+							return
+						}
+						csp := vc.P.Specs[FuncKey(fn)]
+						switch {
+						case csp != nil && csp.HasMod && !csp.Inline:
+							allocs = true
+							if len(csp.Modifies) > 0 {
+								fcm := &ssa.CallCommon{Value: fn, Args: make([]ssa.Value, len(fn.Params))}
+								ks := vc.modKeysOf(csp, fn, fcm)
+								if ks == nil {
+									all = true
+								}
+								for k := range ks {
+									keys[k] = true
+								}
+							}
+						case csp == nil && isLeaf(fn):
+							scanFn(fn, depth+1)
+						default:
+							all = true
+						}
+					}
+					return
 				}
 				if sp == nil || !sp.HasMod {
 					all = true
-					continue
+					return
 				}
 				allocs = true
 				if len(sp.Modifies) > 0 {
@@ -398,6 +453,11 @@ func (f *frame) loopMods(li *loopInfo) (keys map[string]bool, all bool, allocs b
 					}
 				}
 			}
+		}
+	}
+	for b := range li.blocks {
+		for _, in := range b.Instrs {
+			scan(in, 0)
 		}
 	}
 	return
